@@ -151,26 +151,34 @@ func (h *Headers) Serialize(frh *FrameHeader) {
 			frh.Flags().Add(FlagEndHeaders))
 	}
 
+	// The payload is built in the frame header's buffer. Prepending the
+	// priority fields and the padding to rawHeaders itself made a second write
+	// of the same value carry them twice, as part of the header block.
+	p := frh.payload[:0]
+
 	if h.priority {
 		frh.SetFlags(
 			frh.Flags().Add(FlagPriority))
 
-		// prepend stream and weight to rawHeaders
-		h.rawHeaders = append(h.rawHeaders, 0, 0, 0, 0, 0)
-		copy(h.rawHeaders[5:], h.rawHeaders)
 		// The dependency, not the stream the frame is sent on: a stream that
 		// depends on itself is a protocol error at the receiver.
-		http2utils.Uint32ToBytes(h.rawHeaders[0:4], h.stream)
-		h.rawHeaders[4] = h.weight
+		p = append(p, 0, 0, 0, 0, h.weight)
+		http2utils.Uint32ToBytes(p[0:4], h.stream)
 	}
 
+	p = append(p, h.rawHeaders...)
+
+	// PADDED says what this payload looks like: a parsed frame has had its
+	// padding stripped, and written back it kept the flag without the padding.
 	if h.hasPadding {
 		frh.SetFlags(
 			frh.Flags().Add(FlagPadded))
-		h.rawHeaders = http2utils.AddPadding(h.rawHeaders)
+		p = http2utils.AddPadding(p)
+	} else {
+		frh.SetFlags(frh.Flags() &^ FlagPadded)
 	}
 
-	frh.payload = append(frh.payload[:0], h.rawHeaders...)
+	frh.payload = p
 }
 
 // writeHeaderFrames writes fr, whose body is a HEADERS frame, followed by as many
